@@ -240,6 +240,11 @@ var sampleRemotes = []string{"10.1.2.3:4000", "[2001:db8::9]:4000", "[::ffff:10.
 
 func randCase(r *Rng) httpCase {
 	hc := httpCase{spoof: r.Intn(3) == 0, remoteAddr: sampleRemotes[r.Intn(6)], maxnw: 100, defnw: 50, maxsc: 50}
+	if r.Intn(3) == 0 { // other limits, including a default above the maximum and tiny ones
+		pair := [][2]uint32{{10, 50}, {1, 1}, {50, 100}, {100, 100}, {3, 0}, {0, 7}, {1 << 31, 50}, {200, 199}}[r.Intn(8)]
+		hc.maxnw, hc.defnw = pair[0], pair[1]
+		hc.maxsc = []uint32{1, 2, 50, 3}[r.Intn(4)]
+	}
 	if r.Intn(4) == 0 {
 		hc.remoteAddr = sampleRemotes[r.Intn(len(sampleRemotes))]
 	}
@@ -278,6 +283,9 @@ func renderedAnnounce(r *Rng) string {
 	}
 	if r.Bool() {
 		f["numwant"] = strconv.Itoa(r.Intn(200))
+		if r.Intn(3) == 0 { // the edges of the cap: nothing, one, the maximum and just above, sign-bit and top values
+			f["numwant"] = []string{"0", "1", "10", "11", "50", "51", "100", "101", "2147483647", "2147483648", "2147483748", "2147483658", "3000000000", "4294967295", "4294967296", "-1"}[r.Intn(16)]
+		}
 	}
 	if r.Bool() {
 		f["compact"] = []string{"1", "0", "", "true", "00", "2"}[r.Intn(6)]
